@@ -8,7 +8,18 @@ import (
 )
 
 // cmdDump: debugging aids (not used by any registered check).
+var extraDumps = map[string]func(p *Prog){}
+
 func cmdDump(args []string) int {
+	if f, ok := extraDumps[args[0]]; ok {
+		p, err := Load(RepoDir(), "amd64")
+		if err != nil {
+			fmt.Fprintln(os.Stderr, err)
+			return 2
+		}
+		f(p)
+		return 0
+	}
 	if len(args) < 3 {
 		fmt.Fprintln(os.Stderr, "dump fn|guards|desc <relpkg> <func> [arch]")
 		return 2
@@ -49,4 +60,42 @@ func cmdDump(args []string) int {
 		}
 	}
 	return 0
+}
+
+func init() {
+	extraDumps["e1"] = func(p *Prog) {
+		r, err := buildE1(p)
+		if err != nil {
+			fmt.Println("ERR", err)
+			return
+		}
+		fmt.Println("child:", r.Child, "parent:", r.Parent, "exitfns:", len(r.ExitFns), "roles:", r.ParamOf)
+		var fb []int
+		for b := range r.failBlk {
+			fb = append(fb, b.Index)
+		}
+		fmt.Println("failure blocks:", len(fb))
+		for _, l := range r.eventList() {
+			fmt.Println(" ", l)
+		}
+		fmt.Println("atoms:", r.Atoms)
+	}
+}
+
+func init() {
+	extraDumps["e1cd"] = func(p *Prog) {
+		r, _ := buildE1(p)
+		for _, b := range r.Child.Blocks[:30] {
+			_, isF := r.failBlk[b]
+			var ds []string
+			for _, d := range r.cd.cd[b] {
+				ds = append(ds, fmt.Sprintf("b%d/%d", d.b.Index, d.succ))
+			}
+			var ss []int
+			for _, s := range b.Succs {
+				ss = append(ss, s.Index)
+			}
+			fmt.Printf("b%d fail=%v succs=%v cd=%v\n", b.Index, isF, ss, ds)
+		}
+	}
 }
